@@ -4,6 +4,7 @@ import (
 	"context"
 	"errors"
 	"fmt"
+	"os"
 	"sort"
 	"strings"
 	"testing"
@@ -45,7 +46,9 @@ var classProp = map[string]string{
 	// an acknowledged commit whose post-commit handoff never happened was dropped:
 	// by the pipeline (C29 conservation) or, after a Stop began, by the stop (C41)
 	"missing-envelope": "both", "acked-append-reported-failed": "both", "result-never-delivered": "both",
-	"admitted-after-stop": "C41", "stop-returned-before-drain": "C41", "work-cancelled": "C41", "drain-stuck": "C41", "admitted-future-not-terminal": "C41",
+	// ended-context-item-appended is only raised with APPENDSIM_STRICT_ENDED_CTX=1
+	// (see noteRequestArrival): it is not a clause of C29 as stated
+	"ended-context-item-appended": "C29", "admitted-after-stop": "C41", "stop-returned-before-drain": "C41", "work-cancelled": "C41", "drain-stuck": "C41", "admitted-future-not-terminal": "C41",
 }
 
 func (q *aworld) flushViolations() {
@@ -78,6 +81,7 @@ type acfg struct {
 	FAppendFail, FUnknown, FRoute     bool
 	FShort, FLookupErr, FAuth         bool
 	FDeliverErr, FResolve             bool
+	FCtxEnd                           bool
 	Stops, StopAfter                  int
 	DupBias, ConflictBias             int
 }
@@ -113,6 +117,7 @@ func drawCfg(r *simkit.Run) acfg {
 		c.FAuth = tp.Intn(4) == 0
 		c.FDeliverErr = tp.Intn(3) == 0
 		c.FResolve = tp.Intn(3) == 0
+		c.FCtxEnd = tp.Intn(3) == 0
 	}
 	c.DupBias = 1 + tp.Intn(4)
 	c.ConflictBias = tp.Intn(3)
@@ -152,7 +157,7 @@ func runWorld(t *testing.T, r *simkit.Run) {
 		"inflight": c.Inflight, "effect_pool": c.EffectPool, "advance_pool": c.AdvancePool, "shards": c.Shards, "admission": c.Admission,
 		"backlog": c.Backlog, "handoff": c.Handoff, "coalesce_us": c.Coalesce.Microseconds(), "post_commit": c.PostCommit, "fenced": c.Fenced,
 		"deadlines": c.Deadlines, "nofaults": c.NoFaults, "f_append": c.FAppendFail, "f_unknown": c.FUnknown, "f_route": c.FRoute, "f_short": c.FShort,
-		"f_lookup": c.FLookupErr, "f_auth": c.FAuth, "f_deliver": c.FDeliverErr, "f_resolve": c.FResolve, "stops": c.Stops}
+		"f_lookup": c.FLookupErr, "f_auth": c.FAuth, "f_deliver": c.FDeliverErr, "f_resolve": c.FResolve, "f_ctx_end": c.FCtxEnd, "stops": c.Stops}
 	simkit.Bubble(t, r, func() {
 		q := newWorld(r, c)
 		defer q.teardown()
@@ -204,7 +209,8 @@ func newWorld(r *simkit.Run, c acfg) *aworld {
 		reqs: map[string]*appendReq{}, msgReq1: map[uint64]*appendReq{}, msgReq2: map[uint64]*appendReq{},
 		hashIdent: map[string]string{}, repliedOK: map[uint64]uint64{}, repliedIdent: map[string]bool{},
 		envSeen: map[uint64]int{}, persistSeen: map[uint64]int{}, identCount: map[string]int{}, keyCount: map[string]int{},
-		faulted: map[string]bool{}, firstResult: map[string][2]uint64{}}
+		faulted: map[string]bool{}, firstResult: map[string][2]uint64{}, ctxEndedAt: map[string]int{},
+		strictEnded: os.Getenv("APPENDSIM_STRICT_ENDED_CTX") == "1"}
 	q.nextMsgID.Store(1000)
 	q.life, q.lifeCancel = context.WithCancel(context.Background())
 	for i := 0; i < c.Channels; i++ {
@@ -419,6 +425,34 @@ func (q *aworld) collect() []simkit.Action {
 	}
 	if q.finale {
 		return acts
+	}
+	if faults && c.FCtxEnd {
+		for _, o := range q.ops {
+			o := o
+			if o.observed || o.itemCancel == nil {
+				continue
+			}
+			for i := range o.items {
+				i := i
+				if o.itemCancel[i] == nil || o.itemEnded[i] {
+					continue
+				}
+				w := 1
+				if i > 0 && o.itemEnded[i-1] {
+					w = 4 // runs of adjacent ended items are what batch filters must get right
+				}
+				acts = append(acts, simkit.Action{Prio: 5, Key: fmt.Sprintf("endctx op%d.%d", o.id, i), Weight: w, Do: func() {
+					q.r.Fault("item_context_cancelled")
+					o.itemEnded[i] = true
+					id := o.items[i].ident()
+					q.faulted[id] = true
+					if _, seen := q.ctxEndedAt[id]; !seen {
+						q.ctxEndedAt[id] = q.r.Steps
+					}
+					o.itemCancel[i]()
+				}})
+			}
+		}
 	}
 	if q.opsLeft > 0 {
 		for _, cl := range q.callers {
@@ -692,6 +726,13 @@ func (q *aworld) startOp(cl *caller) {
 		o.deadline += time.Duration(o.id%49+1) * time.Microsecond
 		ctx, o.cancel = context.WithTimeout(ctx, o.deadline)
 	}
+	// In some operations every well-formed item travels with its own caller
+	// context (think: one session per item), which the scheduler may end while
+	// the batch is queued, being prepared or waiting for its append turn.
+	if q.cfg.FCtxEnd && len(o.items) > 1 && q.r.Tape.Chance(1, 2) {
+		o.itemCancel = make([]context.CancelFunc, len(o.items))
+		o.itemEnded = make([]bool, len(o.items))
+	}
 	for i, it := range o.items {
 		chID := q.chans[it.ch].id.ID
 		if it.kind == kWrongChannel {
@@ -704,7 +745,11 @@ func (q *aworld) startOp(cl *caller) {
 		if it.payload != "" {
 			cmd.Payload = []byte(it.payload)
 		}
-		batch[i] = ca.SendBatchItem{Context: context.WithValue(ctx, ctxItemKey{}, ctxItem{op: o.id, idx: i}), Command: cmd}
+		ictx := ctx
+		if o.itemCancel != nil && it.kind != kInvalid && it.kind != kWrongChannel {
+			ictx, o.itemCancel[i] = context.WithCancel(ctx)
+		}
+		batch[i] = ca.SendBatchItem{Context: context.WithValue(ictx, ctxItemKey{}, ctxItem{op: o.id, idx: i}), Command: cmd}
 		descr[i] = fmt.Sprintf("%s:%s:%s/%s", it.kind, chID, it.from, it.cno)
 		if it.kind != kInvalid && it.kind != kWrongChannel {
 			q.identCount[it.ident()]++
@@ -721,7 +766,7 @@ func (q *aworld) startOp(cl *caller) {
 	q.ops = append(q.ops, o)
 	cl.busy = o
 	cl.n++
-	q.r.Logf("  op%d caller%d router=%v fenced=%v deadline=%v [%s]", o.id, cl.id, o.viaRouter, o.fenced, o.deadline, strings.Join(descr, " "))
+	q.r.Logf("  op%d caller%d router=%v fenced=%v deadline=%v item_ctx=%v [%s]", o.id, cl.id, o.viaRouter, o.fenced, o.deadline, o.itemCancel != nil, strings.Join(descr, " "))
 	target := q.target(o.ch, o.fenced)
 	go func() {
 		var res []ca.SendBatchItemResult
@@ -921,6 +966,11 @@ func (q *aworld) observeOp(o *op) {
 	if o.cancel != nil {
 		o.cancel()
 	}
+	for _, c := range o.itemCancel {
+		if c != nil {
+			c()
+		}
+	}
 	o.mu.Lock()
 	res, admitted, subErr := o.results, o.admitted, o.submitErr
 	o.mu.Unlock()
@@ -986,6 +1036,17 @@ func (q *aworld) observeOp(o *op) {
 			continue
 		}
 		ident := it.ident()
+		if o.itemEnded != nil && o.itemEnded[i] {
+			switch {
+			case succ:
+				q.r.Probe("ctx_ended_item.reported_success")
+			case q.identCount[ident] == 1 && q.storedIdent(it):
+				// legitimately possible when the context ended while the append was already in flight
+				q.r.Probe("ctx_ended_item.reported_failed_but_stored")
+			default:
+				q.r.Probe("ctx_ended_item.reported_failed_not_stored")
+			}
+		}
 		if !succ {
 			if rs.Err == nil && !q.faulted[ident] {
 				q.violate("misaligned-result", "op%d item %d (%s/%s) got reason %d although nothing rejected it", o.id, i, it.from, it.cno, rs.Result.Reason)
@@ -1055,6 +1116,16 @@ func (q *aworld) observeOp(o *op) {
 			q.r.Probe("order.checked_items")
 		}
 	}
+}
+
+// storedIdent reports whether the channel log holds a record of exactly this logical send.
+func (q *aworld) storedIdent(it item) bool {
+	for _, rc := range q.chans[it.ch].log {
+		if rc.from == it.from && rc.cno == it.cno && rc.payload == it.payload {
+			return true
+		}
+	}
+	return false
 }
 
 func recString(rc rec, ok bool) string {
